@@ -442,7 +442,7 @@ PROPS["C16"] = {
 
 def RC(tasks=3, init_max=2, **kw):
     cfg = {"tasks": ["t%d" % i for i in range(1, tasks + 1)], "init_max": init_max, "has_runtime": True}
-    for k in ("npre", "npost", "npc", "async_pre", "async_post", "async_pc", "lifo", "has_runtime"):
+    for k in ("npre", "npost", "npc", "async_pre", "async_post", "async_pc", "lifo", "has_runtime", "unwind_drops"):
         if k in kw:
             cfg[k] = kw.pop(k)
     rc = {"cfg": cfg, "modes": ["nb", "bl"], "ctos": ["none"], "rtos": ["none"], "ops": 30, "max_objs": 24}
@@ -450,7 +450,7 @@ def RC(tasks=3, init_max=2, **kw):
     return rc
 
 
-R_PLAIN = RC(tasks=4, init_max=3, npost=1, async_post=[1], allow_take=True, allow_retain=True, allow_panic=True)
+R_PLAIN = RC(tasks=4, init_max=3, npost=1, async_post=[1], allow_take=True, allow_retain=True, allow_panic=True, unwind_drops=True)
 R_TIMED = RC(tasks=3, init_max=2, npre=1, npc=1, async_pc=[1], modes=["nb", "bl", "timed"], ctos=["none", "finite"], rtos=["none", "finite"],
              allow_take=True, allow_panic=True)
 R_RESIZE = RC(tasks=4, init_max=2, resize_targets=[0, 1, 3, 4], allow_retain=True, allow_take=True, npost=1)
